@@ -397,8 +397,22 @@ def replay(col, case):
         key = "C08|%s|%s" % (cname, c.get("slot"))
         m = parse_both(ctx, w, key, c)
         if m is not None:
+            from harness import wampwire as W
+            lo, hi = LEN_RANGE[cname]
+            if not (lo <= len(w) <= hi):
+                raise Violation("C08|%s|wrong-element-count-accepted" % cname, repr(w), c)
             strictness(ctx, m, cname, key, c, w)
             fixed_point(ctx, m, key, c)
+            slot = str(c.get("slot", ""))
+            if slot.startswith("opt:"):
+                k = slot[4:]
+                for el in w:
+                    if isinstance(el, dict) and k in el and k in OPT_TYPE:
+                        junk = el[k]
+                        attrs = W.public_attrs(m)
+                        attr = ATTR_OF_KEY.get(k, k)
+                        if attr in attrs and junk is not None and type(junk) != OPT_TYPE[k] and W.deep_eq(attrs[attr], junk):
+                            raise Violation("C08|%s|%s|wrong-type-accepted" % (cname, slot), "option %s=%r retained" % (k, junk), c)
     elif kind == "octets":
         from checks.c03_wamp_roundtrip import make_serializer
         allowed = allowed_exc()
